@@ -592,7 +592,13 @@ def run(chk):
     chk.props("theories/Props/C11.v", THEOREMS)
     rng = chk.rng
     quick = chk.tier == "quick"
-    projects = [(CORPUS_FILES, {}, corpus_queries, 40),
+    ext_files = {"src/x.f90": "module mx\n  !! names shared with external modules\n  type :: mpi\n    integer :: n\n"
+                              "  end type\ncontains\n  subroutine omp_lib()\n    !! a local omp_lib\n  end subroutine\n"
+                              "end module\n"}
+    ext_refs = ["mpi", "MPI", "omp_lib", "mpi(type)", "mpi(extmodule)", "omp_lib(proc)", "omp_lib(extmodule)",
+                "iso_c_binding", "iso_c_binding(extmodule)", "mpi:n", "openacc"]
+    projects = [(ext_files, {}, lambda ab: [(c, t) for c in [None] + ab.contexts() for t in ext_refs], 20),
+                (CORPUS_FILES, {}, corpus_queries, 40),
                 (CORPUS_FILES, {"display": ["public", "private", "protected"], "proc_internals": True},
                  corpus_queries, 40)]
     for i in range(4 if quick else 40):
